@@ -16,6 +16,8 @@ CHECKS = {
          "seeded search over the phase in which a party stalls past the timeout, exact nanosecond offsets of the response and the re-polls around expiry, and goroutines held at reset/failure-path lock sites; decides outcome exclusivity, the answer bound on the fake clock, teardown-before-answer and recovery on fresh processes; sampled"),
  "C06": ("fault_enumeration", "3 C06 and appendix B", "full-stack deterministic simulation: enumerated crash-point x exit-kind x extension matrix, seeded schedules per cell, failure-table oracle",
          "every cell of the (party x protocol point x exit kind x 0-2 extensions) matrix is executed under many seeded schedules; the oracle is the failure table derived from the property statement (status, body provenance, first fault, teardown, recovery); cells enumerated completely, schedules sampled"),
+ "C09": ("fault_enumeration", "3 C09", "full-stack deterministic simulation on the fake clock: enumerated trigger x process-behaviour matrix, timestamped supervisor-log oracle",
+         "all 227 consistent cells of trigger x runtime behaviour x extension behaviours are executed with tape-drawn budgets, TERM delays around the 30% mark, kill and event latencies and lock-grant orders; the oracle checks order and exact fake-clock instants of Terminate/Kill requests, SHUTDOWN event count/reason/deadline and the return time of the operation; cells enumerated completely, continuous parameters sampled"),
 }
 
 NA = [
